@@ -78,6 +78,17 @@ def write_replay(v):
     path = os.path.join(VERIF, 'replays', '%s-%s.json' % (v.prop, dg))
     with open(path, 'w') as f:
         f.write(body + '\n')
+    # a plain unit test next to the record: replays the single case on the real code (no explorer, no search)
+    calls = v.case.get('calls') or v.detail.get('graph') or v.detail.get('rows') or v.detail.get('lines') or []
+    with open(path[:-5] + '_test.py', 'w') as f:
+        f.write('# %s / %s: %s\n' % (v.prop, v.sub, json.dumps(v.sig, sort_keys=True, default=repr)))
+        for c in (calls if isinstance(calls, list) else [calls]):
+            f.write('#   %s\n' % (c,))
+        f.write('# observed vs expected: %s\n' % json.dumps(v.detail, default=repr)[:900])
+        f.write('import subprocess\n\n\ndef test_replay():\n'
+                '    # exit 0 = the recorded case no longer violates the property, 1 = it still does\n'
+                '    assert subprocess.call([%r, \'replay\', %r]) == 0\n\n\n'
+                'if __name__ == \'__main__\':\n    test_replay()\n' % (os.path.join(VERIF, 'check'), path))
     return path
 
 
